@@ -98,14 +98,17 @@ def run_stdio_script(steps: List[Any], *, chunks: Optional[List[Any]] = None,
                 sentinel = {"jsonrpc": "2.0", "method": "notifications/vf-sentinel"}
                 import json
                 n_before = len(out["read"])
+                n_notes_before = len(out["notes"])
                 proc.feed((json.dumps(sentinel) + "\n").encode())
                 await settle()
                 out["reader_alive"] = any(getattr(m, "method", None) == "notifications/vf-sentinel"
                                           for m in out["read"][n_before:])
-                out["read"] = [m for m in out["read"]
+                # anything that only appears once *more* data arrives was withheld: a terminated line must be
+                # delivered when its terminator has been read, not when the next read happens
+                out["late"] = [m for m in out["read"][n_before:]
                                if getattr(m, "method", None) != "notifications/vf-sentinel"]
-                out["notes"] = [m for m in out["notes"]
-                                if getattr(m, "method", None) != "notifications/vf-sentinel"]
+                out["read"] = out["read"][:n_before]
+                out["notes"] = out["notes"][:n_notes_before]
                 out["batching_info"] = client.get_batching_info()
                 out["stdin_before_exit"] = proc.stdin_bytes()
                 d1.cancel()
